@@ -50,6 +50,8 @@ def linear(e, subst, depth=0):
         return None
     if isinstance(e, ast.Constant) and isinstance(e.value, int) and not isinstance(e.value, bool):
         return ({}, e.value)
+    if isinstance(e, ast.Call) and isinstance(e.func, ast.Attribute) and e.func.attr == "get_start_index" and not e.args and isinstance(e.func.value, ast.Name):
+        return ({"%s.get_start_index()" % e.func.value.id: 1}, 0)
     if isinstance(e, ast.Name):
         if e.id in subst and subst[e.id] is not None:
             r = linear(subst[e.id], subst, depth + 1)
@@ -176,7 +178,10 @@ def _toi(r, p):
                     verdicts.append(("unknown", "slice form not recognised: %s" % norm(td)[:50]))
                     continue
                 bt = norm(base)
-                if not (bt in fi.params or bt.endswith("lAllObjects") or bt in ("lAllTokens", "lTokens")):
+                if isinstance(base, ast.Call) and isinstance(base.func, ast.Attribute) and base.func.attr == "get_tokens" and not base.args and isinstance(base.func.value, ast.Name):
+                    # a sub-region of the region X: its tokens are X's tokens from `start` on, so it sits at X's start + start
+                    start = ast.BinOp(left=ast.Call(func=ast.Attribute(value=base.func.value, attr="get_start_index", ctx=ast.Load()), args=[], keywords=[]), op=ast.Add(), right=start)
+                elif not (bt in fi.params or bt.endswith("lAllObjects") or bt in ("lAllTokens", "lTokens")):
                     verdicts.append(("unknown", "slice of %s" % bt))
                     continue
                 tl = linear(start, subst)
@@ -611,6 +616,13 @@ def _ids(r, p):
 
 _X = "vsg/vhdlFile/extract/"
 VARIANTS = [
+    Variant("C18", "protected-body region rebuilt by hand with the parent's start index", "fire",
+            [(_X + "get_tokens_in_protected_type_body_declarative_part.py", "        lReturn.append(oToi.extract_tokens(iStart, iEnd))", "        lReturn.append(tokens.New(oToi.get_start_index(), oToi.get_line_number(), oToi.get_tokens()[1:]))"),
+             (_X + "get_tokens_in_protected_type_body_declarative_part.py", "from vsg.vhdlFile.extract.get_tokens_bounded_by import get_tokens_bounded_by", "from vsg.vhdlFile.extract import tokens\nfrom vsg.vhdlFile.extract.get_tokens_bounded_by import get_tokens_bounded_by")],
+            rule="C18.toi"),
+    Variant("C18", "twin: protected-body region rebuilt by hand one position after the parent's start", "silent",
+            [(_X + "get_tokens_in_protected_type_body_declarative_part.py", "        lReturn.append(oToi.extract_tokens(iStart, iEnd))", "        lReturn.append(tokens.New(oToi.get_start_index() + 1, oToi.get_line_number(), oToi.get_tokens()[1:]))"),
+             (_X + "get_tokens_in_protected_type_body_declarative_part.py", "from vsg.vhdlFile.extract.get_tokens_bounded_by import get_tokens_bounded_by", "from vsg.vhdlFile.extract import tokens\nfrom vsg.vhdlFile.extract.get_tokens_bounded_by import get_tokens_bounded_by")]),
     Variant("C18", "start index off by one in an extractor", "fire",
             [(_X + "get_tokens_at_beginning_of_line_matching.py", "lReturn.append(tokens.New(iIndex - 1, iLine, lAllTokens[iIndex - 1", "lReturn.append(tokens.New(iIndex, iLine, lAllTokens[iIndex - 1")], rule="C18.toi"),
     Variant("C18", "case fix strips whitespace neighbour", "fire",
